@@ -41,6 +41,11 @@ def gen_table(rng, n=None):
         k = rng.choice([0, 0, 1, 1, 2, 2, 3, 4, 5])
         params = tuple(rng.choice([1, 2, 3, 4, 1, 2, 3, 4, 0, 5, 9]) for _ in range(k))
         table.append((pat, msg, params))
+        if rng.random() < 0.15 and "*" not in pat[:4] and pat[0].upper() == "E" and pat[3] in "012389AB":
+            # the same pattern with the reported flag set, as its own (later) entry: the flag-cleared one still comes first
+            flagged = pat[:3] + "%X" % (int(pat[3], 16) | 4) + pat[4:]
+            lit = "".join(c if c != "*" else rng.choice(HEX) for c in flagged)
+            table.append((lit if rng.random() < 0.7 else flagged, rng.choice(MSGS), tuple(rng.choice([1, 2, 3, 4]) for _ in range(rng.randrange(3)))))
     return table
 
 
@@ -187,6 +192,8 @@ def gen_dump(rng, table, strings):
         ilog += im.HDR_START + b"NOPE" + b"\0" * 4                              # header start without a valid name
     names = rng.sample(im.BUFFER_NAMES, rng.choice([0, 1, 2, 3, 6]))
     bufs = b""
+    if names and rng.random() < 0.2:
+        ilog += im.HDR_START + bytes(rng.randrange(256) for _ in range(rng.choice([0, 1, 2, 3, 4])))   # e.g. a PTE equal to 0x02200142
     for nm in names:
         bufs += gen_trace(rng, strings, name=nm.encode(), nentries=rng.choice([0, 1, 2, 4]), hostile=rng.random() < 0.4)
     if names and rng.random() < 0.15:
